@@ -139,3 +139,12 @@ Theorem C03_redecode_gives_the_data_up_to_normalization : forall c (d : code_dat
       cd_eqb (normalize d2) (normalize (proj_cd d)) = true.
 Proof. exact C03_redecode_normal_form_cfg. Qed.
 Print Assumptions C03_redecode_gives_the_data_up_to_normalization.
+
+(* Tie of the operand encoding to the current source: the isinstance chain of from_arg (operands registered in the four
+   tables, free variables by position, the rule that keeps a leading string constant from being read as a docstring),
+   re-translated on every run (Gen/SrcFromArg.v), is the model's from_arg for all operands and table states *)
+From PCD Require Gen.SrcFromArg Proofs.SrcFromArgTie.
+Theorem C03_from_arg_is_the_source : forall {C} (keq : C -> C -> bool) (is_str : C -> bool) (none_c : C) a bt freevars st,
+  PCD.Gen.SrcFromArg.from_arg keq is_str none_c a bt freevars st = from_arg keq is_str none_c a bt freevars st.
+Proof. exact @SrcFromArgTie.from_arg_tie. Qed.
+Print Assumptions C03_from_arg_is_the_source.
